@@ -368,6 +368,22 @@ func (sr *SearchRecovery) RecoverFromSearchFailure(
 		WithSuggestions(suggestions...)
 }
 
+// RecoverFromSearchFailureWithLimit is RecoverFromSearchFailure bounded by the
+// result limit in force (limit <= 0 means no bound): the fallback strategies
+// collect every match, the caller only wants the first limit of them.
+func (sr *SearchRecovery) RecoverFromSearchFailureWithLimit(
+	query string,
+	originalErr error,
+	db *database.Database,
+	limit int,
+) ([]database.SearchResult, error) {
+	results, err := sr.RecoverFromSearchFailure(query, originalErr, db)
+	if limit > 0 && len(results) > limit {
+		results = results[:limit]
+	}
+	return results, err
+}
+
 // basicKeywordSearch performs a simple keyword-based search
 func (sr *SearchRecovery) basicKeywordSearch(query string, db *database.Database) ([]database.SearchResult, error) {
 	// Simple implementation - just look for exact matches in command names
